@@ -181,7 +181,8 @@ Lemma d_insert_core_spec t k s i ch s' :
   ( (ch = false /\ dst s i = mkSlot SLive k /\ dm s' i = dm s i /\ dp s' i = dp s i /\ child_at s' i = child_at s i)
  \/ (ch = true /\ dst s i = mkSlot SPend k /\ child_at s' i = child_at s i /\
        (c_lmt (child_at s i) = t -> dp s' i = true -> dm s' i = true))
- \/ (ch = true /\ s_st (dst s i) = SFree /\ child_at s' i = child0) ).
+ \/ (ch = true /\ s_st (dst s i) = SFree /\ child_at s' i = child0) ) /\
+  (dm s' i = true -> dm s i = true \/ c_lmt (child_at s' i) = t).
 Proof.
   intros T H. unfold d_insert_core in H.
   destruct (k_insert k (d_ks s)) as [r ks'] eqn:KI.
@@ -215,7 +216,8 @@ Proof.
             [rewrite <- V1, <- V2, <- V3, <- V5|rewrite V1, V2, V3, V5]; exact Q|].
     split; [intros k' [j Q]; exists j; destruct (VW j) as [V1 [V2 [V3 [V4 [V5 V6]]]]]; rewrite V1, V5; exact Q|].
     split; [intros j _; destruct (VW j) as [V1 [V2 [V3 [V4 [V5 V6]]]]]; rewrite V1, V4, V5, VCH; auto|].
-    left. destruct (VW j0) as [V1 [V2 [V3 [V4 [V5 V6]]]]]. rewrite V4, V5, VCH. auto. }
+    split; [left; destruct (VW j0) as [V1 [V2 [V3 [V4 [V5 V6]]]]]; rewrite V4, V5, VCH; auto|].
+    destruct (VW j0) as [_ [_ [_ [V4 _]]]]. rewrite V4. auto. }
   (* inserted: resurrected pending slot, or a new slot *)
   assert (PRE : (ir_constructed r = false /\ dst s j0 = mkSlot SPend k) \/
                 (ir_constructed r = true /\ s_st (dst s j0) = SFree /\ find_stored (d_ks s) k = None)).
@@ -265,14 +267,16 @@ Proof.
      slot_ok SLive a' r' m' p' (c_valid (nth j0 (d_ch s3) child0)) ->
      ((p' = true /\ a' = false) <-> (dst s j0 = mkSlot SPend k /\ dr s j0 = true)) ->
      (ir_constructed r = false -> c_lmt (child_at s j0) = t -> p' = true -> m' = true) ->
+     (m' = true -> c_lmt (nth j0 (d_ch s3) child0) = t) ->
      DInv sf /\ d_dt sf = d_dt s /\ d_lmt sf = d_lmt s /\ j0 < ks_cap (d_ks sf) /\ dst sf j0 = mkSlot SLive k /\
      (forall k', inDOld sf k' <-> inDOld s k') /\ (forall k', inP s k' -> inP sf k') /\
      (forall j, j <> j0 -> dst sf j = dst s j /\ dm sf j = dm s j /\ dp sf j = dp s j /\ child_at sf j = child_at s j) /\
      ( (true = false /\ dst s j0 = mkSlot SLive k /\ dm sf j0 = dm s j0 /\ dp sf j0 = dp s j0 /\ child_at sf j0 = child_at s j0)
     \/ (true = true /\ dst s j0 = mkSlot SPend k /\ child_at sf j0 = child_at s j0 /\
           (c_lmt (child_at s j0) = t -> dp sf j0 = true -> dm sf j0 = true))
-    \/ (true = true /\ s_st (dst s j0) = SFree /\ child_at sf j0 = child0) )).
-  { intros ao ro mo po kl sf a' r' m' p' OK OLDIFF MOK.
+    \/ (true = true /\ s_st (dst s j0) = SFree /\ child_at sf j0 = child0) ) /\
+     (dm sf j0 = true -> dm s j0 = true \/ c_lmt (child_at sf j0) = t)).
+  { intros ao ro mo po kl sf a' r' m' p' OK OLDIFF MOK MJ.
     assert (LA : length (d_add s3) = ks_cap ks') by (rewrite S3a; exact Ea).
     assert (LR : length (d_rem s3) = ks_cap ks') by (rewrite S3r; exact Er).
     assert (LM : length (d_mod s3) = ks_cap ks') by (rewrite S3m; exact Em).
@@ -320,9 +324,11 @@ Proof.
     { intros j Hj. destruct (VF j) as [V1 [V2 [V3 [V4 [V5 V6]]]]]. rewrite STF, V3, V4, VC.
       destruct (Nat.eqb_spec j j0); [contradiction|]. repeat split; auto. apply S3ch. exact Hj. }
     destruct (VF j0) as [V1 [V2 [V3 [V4 [V5 V6]]]]]. rewrite Nat.eqb_refl in V3, V4.
-    destruct PRE as [[P0 P1]|[P0 [P1 P2]]].
-    - right. left. rewrite VC, S3c0, P0, V3, V4. repeat split; auto.
-    - right. right. rewrite VC, S3c0, P0. auto. }
+    split.
+    { destruct PRE as [[P0 P1]|[P0 [P1 P2]]].
+      - right. left. rewrite VC, S3c0, P0, V3, V4. repeat split; auto.
+      - right. right. rewrite VC, S3c0, P0. auto. }
+    rewrite V3, VC. intros Q. right. apply MJ. exact Q. }
   assert (CV3 : c_valid (child_at s3 j0) = c_valid (nth j0 (d_ch s3) child0)) by reflexivity.
   assert (PUBV : forall po, bit j0 (upd po (d_pub s3)) = val po (dp s j0)).
   { intros po. assert (LP : length (d_pub s3) = ks_cap ks') by (rewrite S3p; exact Ep).
@@ -347,11 +353,13 @@ Proof.
         rewrite PS in B0. cbn in B0. apply B0. exact RS.
       * split; auto.
       * auto.
+      * intros _. apply Z.eqb_eq. exact CD.
     + apply (FIN None (Some false) None (Some true)); cbn [val].
       * cbn [slot_ok]. repeat split; auto; try discriminate. rewrite S3v, CONF. symmetry.
         rewrite PS in B0. cbn in B0. apply B0. exact RS.
       * split; auto.
       * intros CF Q _. exfalso. exact (NOTT CF eq_refl Q).
+      * intros Q; discriminate Q.
   - destruct (c_valid (child_at s3 j0)) eqn:CV.
     + (* the pending slot of an element that was added and removed in this cycle, child still valid *)
       assert (RS : dr s j0 = false) by congruence.
@@ -365,10 +373,12 @@ Proof.
         -- cbn [slot_ok]. rewrite <- CV3. repeat split; auto.
         -- split; [intros [_ Q]; discriminate|intros [_ Q]; congruence].
         -- auto.
+        -- intros _. apply andb_true_iff in CD. destruct CD as [_ CD]. apply Z.eqb_eq. exact CD.
       * apply (FIN (Some true) None None (Some true)); cbn [val].
         -- cbn [slot_ok]. rewrite <- CV3. repeat split; auto; discriminate.
         -- split; [intros [_ Q]; discriminate|intros [_ Q]; congruence].
         -- intros CF Q _. exfalso. rewrite CF in CD. cbn [negb andb] in CD. exact (NOTT CF CD Q).
+        -- intros Q; discriminate Q.
     + (* a brand-new key (child not yet written), or a resurrected never-published one *)
       assert (RS : dr s j0 = false) by congruence.
       assert (CDF : negb (ir_constructed r) && bit j0 (d_pub s3) && (c_lmt (child_at s3 j0) =? t)%Z = false).
@@ -379,6 +389,7 @@ Proof.
       * cbn [slot_ok]. rewrite <- CV3, AZ, PZ. repeat split; auto; discriminate.
       * rewrite PZ. split; [intros [Q _]; discriminate|intros [_ Q]; congruence].
       * rewrite PZ. intros _ _ Q. discriminate.
+      * intros Q; discriminate Q.
 Qed.
 
 (* ------------------------------------------------------------------ a generic single-slot update (no growth) *)
@@ -723,15 +734,127 @@ Proof.
   destruct (d_kslmt (d_touch_mark t s) =? MIN_DT); [apply dmid_fields|]; exact M.
 Qed.
 
+(* ------------------------------------------------------------------ an element written through its own view *)
+Definition with_child (i : nat) (c : child) (s : tsd) : tsd :=
+  mkD (d_ks s) (set_nth i c (d_ch s)) (d_add s) (d_rem s) (d_mod s) (d_pub s) (d_dt s) (d_lmt s) (d_kslmt s).
+
+(* rolling the delta window does not look at the children: it commutes with a child assignment *)
+Lemma d_prepare_with_child t i c s :
+  DInv s -> d_prepare t (with_child i c s) = with_child i c (d_prepare t s).
+Proof.
+  intros T. unfold d_prepare, with_child. cbn [d_ks d_ch d_add d_rem d_mod d_pub d_dt d_lmt d_kslmt].
+  destruct (Z.leb_spec t (d_dt s)) as [L|L].
+  - rewrite (d_ensure_id s T).
+    apply d_ensure_id'; cbn [d_ks d_ch d_add]; [rewrite set_nth_length; apply (di_lc s T)|apply (di_la s T)].
+  - destruct (k_erase_pending_spec (d_ks s) (di_k s T)) as [_ [C1 _]].
+    rewrite !d_ensure_id'; cbn [d_ks d_ch d_add d_rem d_mod d_pub d_dt d_lmt d_kslmt]; rewrite ?set_nth_length, ?clear_bits_length, ?C1;
+      try reflexivity; first [apply (di_lc s T)|apply (di_la s T)].
+Qed.
+
+Lemma tsd_child_write_first_eq t i v s :
+  (c_lmt (child_at s i) < t)%Z ->
+  tsd_child_write t i v s = d_mark t (d_child_modified i t (with_child i (mkC v t) s)).
+Proof.
+  intros L. unfold tsd_child_write. destruct (Z.ltb_spec (c_lmt (child_at s i)) t); [|lia].
+  cbn [d_ks d_ch d_add d_rem d_mod d_pub d_dt d_lmt d_kslmt]. rewrite set_nth_twice. reflexivity.
+Qed.
+
+(* A first write of the cycle through the element's own view is the same as rolling the window first:
+   record_child_modified does the roll itself. *)
+Lemma tsd_child_write_prepare t i v k s :
+  DInv s -> dst s i = mkSlot SLive k -> (c_lmt (child_at s i) < t)%Z ->
+  tsd_child_write t i v s = tsd_child_write t i v (d_prepare t s).
+Proof.
+  intros T LV L.
+  assert (CH : child_at (d_prepare t s) i = child_at s i).
+  { unfold d_prepare. destruct (Z.leb_spec t (d_dt s)); [rewrite (d_ensure_id s T); reflexivity|].
+    destruct (k_erase_pending_spec (d_ks s) (di_k s T)) as [_ [C1 _]].
+    rewrite d_ensure_id'; cbn [d_ks d_ch d_add]; rewrite ?clear_bits_length, ?C1; try reflexivity;
+      first [apply (di_lc s T)|apply (di_la s T)]. }
+  rewrite (tsd_child_write_first_eq t i v s L).
+  rewrite (tsd_child_write_first_eq t i v (d_prepare t s)) by (rewrite CH; exact L).
+  f_equal. unfold d_child_modified.
+  assert (LV1 : live (slot_at (d_ks (with_child i (mkC v t) s)) i) = true).
+  { unfold with_child. cbn [d_ks]. fold (dst s i). rewrite LV. reflexivity. }
+  assert (LV2 : live (slot_at (d_ks (with_child i (mkC v t) (d_prepare t s))) i) = true).
+  { unfold with_child. cbn [d_ks]. fold (dst (d_prepare t s) i).
+    destruct (Z.leb_spec t (d_dt s)) as [Q|Q].
+    - rewrite d_prepare_same by (auto; lia). rewrite LV. reflexivity.
+    - destruct (d_prepare_roll t s T Q) as [_ [_ [_ [_ S1]]]]. rewrite S1, LV. reflexivity. }
+  rewrite LV1, LV2. cbn [negb].
+  rewrite (d_prepare_with_child t i (mkC v t) s T).
+  assert (ID : d_prepare t (with_child i (mkC v t) (d_prepare t s)) = with_child i (mkC v t) (d_prepare t s)).
+  { assert (T1 : DInv (d_prepare t s)).
+    { destruct (Z.leb_spec t (d_dt s)) as [Q|Q]; [rewrite d_prepare_same by (auto; lia); exact T|apply (d_prepare_roll t s T Q)]. }
+    rewrite (d_prepare_with_child t i (mkC v t) (d_prepare t s) T1). f_equal.
+    apply d_prepare_same; auto.
+    destruct (Z.leb_spec t (d_dt s)) as [Q|Q]; [rewrite d_prepare_same by (auto; lia); lia|].
+    destruct (d_prepare_roll t s T Q) as [_ [D1 _]]. lia. }
+  rewrite ID. reflexivity.
+Qed.
+
+(* a later write in the same cycle only assigns the value *)
+Lemma tsd_child_write_again t i v k s :
+  DInv s -> dst s i = mkSlot SLive k -> (t <= c_lmt (child_at s i))%Z ->
+  let s' := tsd_child_write t i v s in
+  DInv s' /\ d_dt s' = d_dt s /\ d_lmt s' = d_lmt s /\ (forall k', inDOld s' k' <-> inDOld s k') /\ (forall k', inP s' k' <-> inP s k') /\
+  (forall j, dst s' j = dst s j /\ dm s' j = dm s j /\ dp s' j = dp s j) /\
+  (forall j, j <> i -> child_at s' j = child_at s j) /\ child_at s' i = mkC v (c_lmt (child_at s i)).
+Proof.
+  intros T LV GE. unfold tsd_child_write. destruct (Z.ltb_spec (c_lmt (child_at s i)) t); [lia|].
+  assert (Li : (i < ks_cap (d_ks s))%nat).
+  { apply slot_at_lt_of_state. fold (dst s i). rewrite LV. discriminate. }
+  pose proof (di_bits s T i) as B. rewrite LV in B. cbn [s_st slot_ok] in B. destruct B as [B1 [B2 [B3 B4]]].
+  destruct (d_update_slot s (d_ks s) i k SLive SLive None None None None (Some (mkC v (c_lmt (child_at s i)))) (d_dt s) (d_lmt s) (d_kslmt s)
+              T (di_k s T) eq_refl Li LV ltac:(discriminate) (kinv_self_slot s i SLive k LV)) as [D [O [S0 [_ [_ [M0 [P0 [_ OTH]]]]]]]].
+  { cbn [valb slot_ok]. repeat split; auto. }
+  { cbn [valb]. tauto. }
+  cbn [updb updc valb] in *.
+  assert (PW : forall j, dst (mkD (d_ks s) (set_nth i (mkC v (c_lmt (child_at s i))) (d_ch s)) (d_add s) (d_rem s) (d_mod s) (d_pub s) (d_dt s) (d_lmt s) (d_kslmt s)) j = dst s j /\
+                         dm (mkD (d_ks s) (set_nth i (mkC v (c_lmt (child_at s i))) (d_ch s)) (d_add s) (d_rem s) (d_mod s) (d_pub s) (d_dt s) (d_lmt s) (d_kslmt s)) j = dm s j /\
+                         dp (mkD (d_ks s) (set_nth i (mkC v (c_lmt (child_at s i))) (d_ch s)) (d_add s) (d_rem s) (d_mod s) (d_pub s) (d_dt s) (d_lmt s) (d_kslmt s)) j = dp s j).
+  { intros j. repeat split; reflexivity. }
+  split; [exact D|]. split; [reflexivity|]. split; [reflexivity|]. split; [exact O|].
+  split; [intros k'; split; intros [j Q]; exists j; exact Q|].
+  split; [exact PW|].
+  assert (LC : (i < length (d_ch s))%nat) by (rewrite (di_lc s T); exact Li).
+  split.
+  - intros j Hj. unfold child_at. cbn [d_ch]. rewrite nth_set_nth_ch. destruct (Nat.eqb_spec j i); [contradiction|reflexivity].
+  - unfold child_at at 1. cbn [d_ch]. rewrite nth_set_nth_ch, Nat.eqb_refl, ltb_true by exact LC. reflexivity.
+Qed.
+
+Lemma tsd_write_step V0 t k v s : (0 < t)%Z -> DC V0 t s -> DC V0 t (snd (tsd_write t k v s)).
+Proof.
+  intros PT C. unfold tsd_write.
+  destruct (find_live (d_ks s) k) as [i|] eqn:F; cbn [snd]; [|exact C].
+  pose proof (find_live_some _ _ _ F) as LV. fold (dst s i) in LV.
+  assert (T : DInv s) by (destruct C as [[T _]|[T _]]; exact T).
+  destruct (Z.lt_ge_cases (c_lmt (child_at s i)) t) as [L|G].
+  - (* the first write of the element in this cycle: the dictionary rolls its window and records it *)
+    rewrite (tsd_child_write_prepare t i v k s T LV L).
+    destruct (d_prepare_step V0 t s C) as [T1 [D1 O1]].
+    assert (LV1 : dst (d_prepare t s) i = mkSlot SLive k).
+    { destruct C as [[_ [D _]]|[_ [D _]]].
+      - destruct (d_prepare_roll t s T D) as [_ [_ [_ [_ S1]]]]. rewrite S1, LV. reflexivity.
+      - rewrite d_prepare_same by (auto; lia). exact LV. }
+    destruct (tsd_child_write_spec t i v k (d_prepare t s) T1 LV1 D1 PT) as [T2 [D2 [O2 _]]].
+    right. split; [exact T2|]. split; [exact D2|]. intros k'. rewrite O2. apply O1.
+  - destruct (tsd_child_write_again t i v k s T LV G) as [T2 [D2 [_ [O2 [P2 _]]]]].
+    destruct C as [[_ [D V]]|[_ [D O]]].
+    + left. split; [exact T2|]. split; [lia|]. intros k'. rewrite P2. apply V.
+    + right. split; [exact T2|]. split; [lia|]. intros k'. rewrite O2. apply O.
+Qed.
+
 Lemma tsd_op_step V0 t o s : 0 < t -> DC V0 t s -> DC V0 t (snd (tsd_op t o s)).
 Proof.
-  intros PT C. destruct o as [k v|k| |c| |k|]; cbn [tsd_op snd].
+  intros PT C. destruct o as [k v|k| |c| |k|k v|]; cbn [tsd_op snd].
   - right. apply tsd_set_step; auto.
   - destruct (tsd_erase t k s) as [b s'] eqn:E. cbn [snd]. right. apply (tsd_erase_step V0 t k s b s' C E).
   - right. apply tsd_clear_step. exact C.
   - apply tsd_reserve_step. exact C.
   - right. apply tsd_touch_step. exact C.
   - destruct (tsd_at t k s) as [i s'] eqn:E. cbn [snd]. right. apply (tsd_at_step V0 t k s i s' C E).
+  - apply tsd_write_step; auto.
   - exact C.
 Qed.
 
